@@ -1,5 +1,6 @@
 use std::fs;
 use std::path::Path;
+use std::path::PathBuf;
 
 use action::all_action_types;
 use action::ActionContext;
@@ -49,14 +50,12 @@ pub struct Server {
 
 pub struct BasePath {
     base_path: String,
+    dir: PathBuf,
 }
 
 impl BasePath {
     fn key_to_url(&self, key: &Key) -> Url {
-        Url::parse(&self.base_path)
-            .unwrap()
-            .join(&key.to_path())
-            .expect("to work")
+        Url::from_file_path(self.dir.join(key.to_path())).expect("to work")
     }
 
     fn relative_to_full_path(&self, url: &str) -> Url {
@@ -67,15 +66,23 @@ impl BasePath {
     }
 
     fn name_to_url(&self, key: &str) -> Url {
-        Url::parse(&format!("{}{}.md", self.base_path, key)).unwrap()
+        Url::from_file_path(self.dir.join(format!("{}.md", key))).expect("to work")
     }
 
     fn url_to_key(&self, url: &Url) -> Key {
-        Key::from_file_name(
-            &url.to_string()
+        let in_library = url.to_file_path().ok().and_then(|path| {
+            path.strip_prefix(&self.dir).ok().map(|relative| {
+                relative
+                    .components()
+                    .map(|part| part.as_os_str().to_string_lossy())
+                    .join("/")
+            })
+        });
+        Key::from_file_name(&in_library.unwrap_or_else(|| {
+            url.to_string()
                 .trim_start_matches(&self.base_path)
-                .to_string(),
-        )
+                .to_string()
+        }))
     }
 }
 
@@ -94,6 +101,7 @@ impl Server {
         Server {
             base_path: BasePath {
                 base_path: format!("file://{}/", config.base_path),
+                dir: PathBuf::from(&config.base_path),
             },
             database: Database::new(
                 config.state,
